@@ -1,17 +1,9 @@
+import CovfieModel.Model.Narrow
 /-! # C07 (precision part) — narrowing double → float rounds to nearest (ties to even); widening is exact.
     Stated on the integer significand/exponent pair `(M, E)` (value `M · 2^E`); the bit-packing around it is
-    validated against the hardware conversion by the correspondence check. -/
+    validated against the hardware conversion by the correspondence check.
+    The definitions (`rshift`, `narrowME`, `narrowBits`, `widenBits`) live in `Model/Narrow.lean` so that the driver runs them. -/
 namespace Covfie.C07
-
-/-- round-half-even of `M / 2^sh` -/
-def rshift (M sh : Nat) : Nat :=
-  let q := M / 2^sh
-  let r := M % 2^sh
-  let half := 2^sh / 2
-  if sh = 0 then M
-  else if r < half then q
-  else if r > half then q + 1
-  else if q % 2 = 0 then q else q + 1
 
 /-- `|M − 2^sh · rshift M sh| ≤ 2^sh / 2`, stated without subtraction -/
 theorem rshift_bound (M sh : Nat) :
@@ -56,13 +48,6 @@ theorem rshift_tie_even (M sh : Nat) (h0 : sh ≠ 0) (h : M % 2^sh = 2^sh / 2) :
   unfold rshift
   simp only [h0, if_false, h, Nat.lt_irrefl, gt_iff_lt]
   split <;> omega
-
-/-- finite double `M · 2^E` (M < 2^53, E ≥ −1074) narrowed to float: drop `sh` low bits so that at most 24 significant
-    bits remain and the exponent does not fall below the float subnormal quantum 2^−149 -/
-def narrowME (M : Nat) (E : Int) : Nat × Int :=
-  let len := Nat.log2 M + 1
-  let sh : Nat := max (len - 24) ((-149 - E).toNat)
-  (rshift M sh, E + sh)
 
 /-- half-quantum accuracy: `|M·2^E − M'·2^E'| ≤ 2^E' / 2` (scaled by `2^(−E)` to stay in the integers) -/
 theorem narrowME_bound (M : Nat) (E : Int) :
